@@ -43,75 +43,92 @@ def run(run_, ctx):
     run_.floor("W", 29)
     F = ctx.facts("A")
     pc = F.crate("postcard")
-    # semantic sibling checks on the tree itself
+    # semantic sibling checks on the tree itself, read off the semantic summaries (summ2): helper extraction, `?` vs match, operand
+    # order, loops vs try_for_each do not change them
+    import summ2
+    ren = glue.renames(F, pc, glue.load2("A"))
     ser = {summ.fn_key(f): f for f in glue.fns_of_group(pc, "ser_crc")}
     de = {summ.fn_key(f): f for f in glue.fns_of_group(pc, "de_crc")}
+
+    def outs(f):
+        return summ2.summarize(F, f, renames=ren)["outcomes"]
+
+    def split(o):
+        body, ret = o["text"].rsplit(" => ", 1)
+        return ([] if body == "-" else body.split("; ")), ret
     for w, nb in WIDTHS.items():
         kf = "<ser::flavors::crc::CrcModifier<'a, B, %s> as Flavor>::finalize" % w
         kp = "<ser::flavors::crc::CrcModifier<'a, B, %s> as Flavor>::try_push" % w
         probs = []
         if kf in ser:
-            ls = summ.lines(summ.summarize(F, ser[kf]))
-            full = [l for l in ls if "Flavor>::finalize(" in l and "=> #" in l]
+            full = [o for o in outs(ser[kf]) if re.search(r"=> Result::Ok\(okval\(#\d+\)\)$", o["text"])]
             if len(full) != 1:
-                probs.append("no single all-success path ending in the inner finalize")
+                probs.append("no single all-success outcome ending in the inner finalize")
             else:
-                pushes = re.findall(r"try_push\(&\{[^}]*\}, ([^;]*?)\);", full[0] + ";")
+                evs, ret = split(full[0])
+                pushes = [re.sub(r"^#\d+ = <B as Flavor>::try_push\(&\{[^}]*\}, (.*)\)$", r"\1", e) for e in evs if "Flavor>::try_push(" in e]
                 exp = ["(#1 as u8)"] + ["(Shr(#1, %d) as u8)" % (8 * k) for k in range(1, nb)]
                 if nb == 1:
                     exp = ["#1"]
                 if pushes != exp:
                     probs.append("checksum bytes pushed are %s, expected little-endian %s" % (pushes, exp))
-                if full[0].count("Flavor>::finalize(") != 1 or not full[0].rstrip().endswith("=> #%d" % (nb + 2)):
+                if not evs or "::finalize(self.digest)" not in evs[0]:
+                    probs.append("the checksum pushed is not the digest's final value")
+                if not evs or not re.match(r"^#(\d+) = <B as Flavor>::finalize\(", evs[-1]) or ret != "Result::Ok(okval(#%d))" % len(evs):
                     probs.append("inner flavor is not finalized last")
         else:
             probs.append("finalize not found")
         if kp in ser:
-            lp = summ.lines(summ.summarize(F, ser[kp]))
-            if len(lp) != 1 or "update(&*self.digest, &{[arg2]})" not in lp[0] or "try_push(&*self.flav, arg2) => #2" not in lp[0]:
-                probs.append("try_push does not digest exactly the byte it forwards")
+            for o in outs(ser[kp]):
+                evs, ret = split(o)
+                if len(evs) != 2 or not evs[0].endswith("::update(&self.digest, &{[arg2]})") or not evs[1].endswith("<B as Flavor>::try_push(&self.flav, arg2)"):
+                    probs.append("try_push does not digest exactly the byte it forwards")
         else:
             probs.append("try_push not found")
-        if [k for k in ser if ("B, %s>" % w) in k and k.endswith("::try_extend")]:
+        for ke in [k for k in ser if ("B, %s>" % w) in k and k.endswith("::try_extend")]:
             # an override must digest the same slice it forwards
-            ke = [k for k in ser if ("B, %s>" % w) in k and k.endswith("::try_extend")][0]
-            le = " ".join(summ.lines(summ.summarize(F, ser[ke])))
-            if "update(&*self.digest, arg2)" not in le:
-                probs.append("try_extend override forwards bytes that the digest does not cover")
+            for o in outs(ser[ke]):
+                evs, ret = split(o)
+                if not any(e.endswith("::update(&self.digest, arg2)") for e in evs) or not any("try_extend(&self.flav, arg2)" in e for e in evs):
+                    probs.append("try_extend override forwards bytes that the digest does not cover")
         run_.check(not probs, "SX", "ser width %s" % w, probs[0] if probs else "digest covers forwarded bytes; %d LE checksum bytes; inner finalize last" % nb, found=probs)
         # de side
         kfd = "<de::flavors::crc::CrcModifier<'de, B, %s> as Flavor>::finalize" % w
         probs = []
         if kfd in de:
-            ls = summ.lines(summ.summarize(F, de[kfd]))
-            oks = [l for l in ls if "=> Result::Ok(" in l]
+            os_ = outs(de[kfd])
+            oks = [o for o in os_ if "=> Result::Ok(" in o["text"]]
             if len(oks) != 1:
-                probs.append("expected exactly one path to Ok(remainder), found %d" % len(oks))
+                probs.append("expected exactly one outcome Ok(remainder), found %d" % len(oks))
             else:
-                l = oks[0]
-                if "try_take_n(&{self.flav}, %d)" % nb not in l:
+                o = oks[0]
+                evs, ret = split(o)
+                if not any("try_take_n(&{self.flav}, %d)" % nb in e for e in evs):
                     probs.append("does not take exactly %d checksum bytes" % nb)
-                if not re.search(r"#\d+ == from_le_bytes::<%s>\(okval\(#\d+\)\)" % w, l) and \
-                        not re.search(r"from_le_bytes::<%s>\(okval\(#\d+\)\) == #\d+" % w, l):
-                    probs.append("Ok(remainder) is not guarded by digest == from_le_bytes(checksum bytes)")
-            bad = [l for l in ls if re.search(r"(#\d+ != from_le_bytes|from_le_bytes::<\w+>\(okval\(#\d+\)\) != #\d+)", l)]
-            if len(bad) != 1 or "DeserializeBadCrc" not in bad[0]:
+                dig = [k + 1 for k, e in enumerate(evs) if "::finalize(self.digest)" in e]
+                for c in o["when"]:
+                    eq = [l for l in c if l[0] == "lin" and l[2] == [[0, 0]] and ("from_le_bytes::<%s>(" % w) in l[1] and dig and ("#%d" % dig[0]) in l[1]
+                          and "okval(#1)" in l[1]]
+                    if not eq:
+                        probs.append("Ok(remainder) is not guarded by digest == from_le_bytes(the %d checksum bytes taken)" % nb)
+            bad = [o for o in os_ if "DeserializeBadCrc" in o["text"]]
+            if len(bad) != 1 or not all(any(l[0] == "lin" and ("from_le_bytes::<%s>(" % w) in l[1] and [0, 0] not in l[2] for l in c) for c in bad[0]["when"]):
                 probs.append("checksum mismatch does not return DeserializeBadCrc")
         else:
             probs.append("finalize not found")
-        for nm, argpat in (("pop", r"update\(&\*self\.digest, &\{\[okval\(#1\)\]\}\) => Result::Ok\(okval\(#1\)\)"),
-                           ("try_take_n", r"update\(&\*self\.digest, okval\(#1\)\) => Result::Ok\(okval\(#1\)\)")):
+        for nm, arg in (("pop", "&{[okval(#1)]}"), ("try_take_n", "okval(#1)")):
             k = "<de::flavors::crc::CrcModifier<'de, B, %s> as Flavor>::%s" % (w, nm)
             if k not in de:
                 probs.append("%s not found" % nm)
                 continue
-            ls = summ.lines(summ.summarize(F, de[k]))
-            okl = [l for l in ls if "tag(#1) == 0" in l]
-            erl = [l for l in ls if "tag(#1) == 1" in l]
-            if len(okl) != 1 or not re.search(argpat, okl[0]):
-                probs.append("%s does not digest exactly the bytes it returns" % nm)
-            if len(erl) != 1 or "update(" in erl[0]:
-                probs.append("%s touches the digest on the error path" % nm)
+            for o in outs(de[k]):
+                evs, ret = split(o)
+                upd = [e for e in evs if "::update(" in e]
+                if ret.startswith("Result::Ok("):
+                    if ret != "Result::Ok(okval(#1))" or len(upd) != 1 or not upd[0].endswith("::update(&self.digest, %s)" % arg) or "Flavor>::%s(&self.flav" % nm not in evs[0]:
+                        probs.append("%s does not digest exactly the bytes it returns" % nm)
+                elif upd:
+                    probs.append("%s touches the digest on the error path" % nm)
         run_.check(not probs, "DX", "de width %s" % w, probs[0] if probs else "digest covers consumed bytes; %d-byte LE compare guards Ok" % nb, found=probs)
     run_.floor("SX", 5)
     run_.floor("DX", 5)
